@@ -31,9 +31,10 @@ M = [
  ("myrsi_ties_count_up", ["C05", "C12"], SW+"my_rsi.rs", "            if *v > prev {\n                self.cu = self.cu + (*v - prev);", "            if *v >= prev {\n                self.cu = self.cu + (*v - prev) + T::from(0.0).unwrap();\n                if *v == prev { self.cu = self.cu + T::from(1e-9).unwrap(); }"),
  ("cog_weights_reversed", ["C06"], SW+"center_of_gravity.rs", "let weight = q_len - i;", "let weight = i + 1;"),
  ("cti_uses_window_len_on_partial_EQUIVALENT", [], SW+"correlation_trend_indicator.rs", "let window_len = T::from(self.q_vals.len()).expect(\"Can convert\");", "let window_len = T::from(self.window_len).expect(\"Can convert\");"),
- ("cti_not_centred", ["C07", "C12"], SW+"correlation_trend_indicator.rs", "let v = *v - base;", "let v = *v - base * T::zero();"),
+ ("cti_not_centred", ["C12", "C16"], SW+"correlation_trend_indicator.rs", "let v = *v - base;", "let v = *v - base * T::zero();"),
  ("net_ties_count_plus", ["C06", "C12"], SW+"noise_elimination_technology.rs", "                if diff > T::zero() {", "                if diff >= T::zero() {"),
  ("net_skips_adjacent_pairs", ["C06"], SW+"noise_elimination_technology.rs", "            for older in 0..newer {", "            for older in 0..newer.saturating_sub(1) {"),
+ ("ema_incremental_form", ["C04", "C09"], SW+"ema.rs", "self.out = val * weight + self.last_ema * (T::one() - weight);", "self.out = self.last_ema + weight * (val - self.last_ema);"),
  ("alma_offset_constant", ["C04"], SW+"alma.rs", "let m = offset * (wl + T::one());", "let m = offset * wl;"),
  ("alma_never_evicts_weight", ["C04", "C03", "C10"], SW+"alma.rs", "            self.cum_wt = self.cum_wt - *old_wtd;\n", ""),
  ("supersmoother_c1_sign", ["C11", "C10"], SW+"super_smoother.rs", "c1: T::one() - c2 - c3,", "c1: T::one() - c2 + c3,"),
@@ -117,6 +118,6 @@ REVERTS = [
  ("57a3726", ["C18"]), ("82ed14d", ["C18"]), ("b5c376c", ["C15"]), ("c78e68d", ["C15"]), ("f393148", ["C15"]),
  ("5af7571", ["C09", "C11", "C08"]), ("c87903f", ["C08", "C16"]), ("5c3209c", ["C02", "C03", "C04"]), ("b36a269", ["C02", "C03"]),
  ("8d84c6d", ["C02", "C03"]), ("3838687", ["C02", "C03"]), ("fbe9243", ["C04", "C10"]), ("8929b8c", ["C06", "C12"]), ("aa6c6eb", ["C11"]),
- ("d465690", ["C11"]), ("f767220", ["C10", "C11", "C15"]), ("e0c2cb8", ["C07", "C16"]), ("7c88e22", ["C07", "C12"]), ("617124b", ["C07"]),
+ ("d465690", ["C11"]), ("f767220", ["C10", "C11", "C15"]), ("e0c2cb8", ["C07", "C16"]), ("7c88e22", ["C12", "C16"]), ("617124b", ["C07"]),
 ]
 main()
